@@ -230,7 +230,14 @@ class AttackGraph():
             serialized_attack_steps[ag_node.full_name] =\
                 ag_node.to_dict()
         for attacker in self.attackers:
-            serialized_attackers[attacker.name] = attacker.to_dict()
+            # Attackers are keyed by name, but names are not required to be
+            # unique: qualify a name that is already taken with the attacker
+            # id so that every attacker is kept (the loader reads the name
+            # from the entry itself, not from the key).
+            attacker_key = attacker.name
+            while attacker_key in serialized_attackers:
+                attacker_key = f'{attacker_key}:{attacker.id}'
+            serialized_attackers[attacker_key] = attacker.to_dict()
         return {
             'attack_steps': serialized_attack_steps,
             'attackers': serialized_attackers,
